@@ -266,6 +266,28 @@ pub fn stories(prop: &str) -> Vec<Scenario> {
                     Op::new("set_message").n(0).n(0).s("ok"),
                 ],
             ));
+            // a frame that has lines but paints none of them (the only live bar is taller than the
+            // terminal) leaves the cursor below the static rows of a finished bar: the next println
+            // clears those rows completely, not all but the first
+            v.push(multi(
+                "C19",
+                194,
+                10,
+                3,
+                0,
+                0,
+                vec![
+                    Op::new("add").n(0).n(0).n(1).n(10).n(0).n(8).s("{obs}{msg}").s("fin").s("").s("zzzzzzzzzzzz"),
+                    Op::new("add").n(0).n(0).n(1).n(10).n(0).n(8).s("{obs}{msg}").s("fin").s("").s("lll"),
+                    Op::new("tick").n(0),
+                    Op::new("tick").n(1),
+                    Op::new("finish").n(0).n(0).s(""),
+                    Op::new("drop_all").n(0),
+                    Op::new("set_message").n(1).n(0).s("LLLLLLLLLLLLLLLLLLLLLLLLLLLLLLLLLLL"),
+                    Op::new("mp_println").s("hello"),
+                    Op::new("set_message").n(1).n(0).s("ok"),
+                ],
+            ));
             // a finished bar that never fitted the terminal is reaped by a draw; a later println
             // must not clear rows for it (there are none on the screen)
             v.push(multi(
